@@ -336,7 +336,8 @@ func (f *OrefaFile) ReadDir(n int) ([]fs.DirEntry, error) {
 
 	f.dirIndex = end
 
-	return f.dirEntries[start:end], nil
+	// The capacity of the batch is its length : an append by the caller does not reach the next batch.
+	return f.dirEntries[start:end:end], nil
 }
 
 // Readdirnames reads and returns a slice of names from the directory f.
@@ -414,7 +415,8 @@ func (f *OrefaFile) Readdirnames(n int) (names []string, err error) {
 
 	f.dirIndex = end
 
-	return f.dirNames[start:end], nil
+	// The capacity of the batch is its length : an append by the caller does not reach the next batch.
+	return f.dirNames[start:end:end], nil
 }
 
 // Seek sets the offset for the next Read or Write on file to offset, interpreted
